@@ -530,7 +530,8 @@ def run_shard(spec):
                          dt_choices=(base // 2, base, base * 2, base + 1, base - 1, base // 3))
     else:
         for _ in range(4 if quick else 40):
-            st.run_world(rng, HEADER_CLASSES, nblocks=rng.choice([8, 14, 20]), ncand=45 if quick else 60)
+            world = st.run_world(rng, HEADER_CLASSES, nblocks=rng.choice([8, 14, 20]), ncand=45 if quick else 60)
+            st.two_thread_lane(world, rng, 2 if quick else 4)
         for _ in range(1 if quick else 8):        # every candidate the first block above the checkpoint horizon
             cstream.Stream.run_world(st, rng, HEADER_CLASSES, nblocks=rng.choice([6, 10]), ncand=20 if quick else 40,
                                      bad_key_prob=0.0, horizon_at_head=True)
@@ -598,6 +599,7 @@ def finalize(m, tier):
               ("candidates_first_above_horizon", c.get("candidates_first_above_horizon", 0), 100)]
     for cls in list(HEADER_CLASSES) + list(PERIOD_ONLY):
         floors.append(("class " + cls, c.get("by_class", {}).get(cls, 0), 6))
+    floors.append(("two_thread_switch_points", c.get("two_thread_switch_points", 0), 1500))
     if tier == "thorough":
         floors.append(("real_scrypt_blocks", c.get("real_scrypt_blocks", 0), 4))
         floors.append(("prefix_blocks_unvalidated", c.get("prefix_blocks_unvalidated", 0), 10000))
